@@ -3,7 +3,11 @@ C17 — executable model of `genapi/src/parser/*.rs`, `builder.rs`, `store.rs`
 (interner, value store, `store_node`, invalidator registrations).
 
 The model starts at the ELEMENT TREE that `roxmltree` hands to the parser
-(`Elem`: element / text / comment / processing instruction).  Every `impl Parse`
+(`Elem`: element / text / comment / processing instruction).  Namespaces: the parser only
+ever asks roxmltree for LOCAL names (`tag_name().name()`, `Attribute::name()`), and roxmltree
+does not list namespace declarations (`xmlns`, `xmlns:xsi`) among the attributes; so `tag`
+and attribute names of `Elem` are local names (`xsi:schemaLocation` is the attribute
+`schemaLocation`) and a document in the GenApi default namespace looks like one without.  Every `impl Parse`
 of the Rust code is one definition here, in the same order of cursor operations;
 Rust `unwrap` / `unreachable!` / `todo!` / `debug_assert!` are `panic`.
 
@@ -532,15 +536,18 @@ def convertToFloat {F : Type} [FloatLit F] (s : Str) : R F :=
   else if s = cs!"-INF" then .ok FloatLit.negInf
   else ofOpt (FloatLit.parse s)
 
-/-- Unicode `Alphabetic` beyond ASCII, transcribed for the common scripts (Latin-1 …
-Latin Extended / IPA, Greek, Cyrillic, Hiragana, Katakana, CJK unified ideographs, Hangul
-syllables).  Code points outside these ranges are taken as non-alphabetic (assumption of the
-model; `std`'s full table is not transcribed). -/
+/-- Unicode `Alphabetic` beyond ASCII (`char::is_alphabetic`), transcribed exactly for the code
+points U+0080 … U+052F (Latin-1, Latin Extended, IPA, modifier letters, combining ypogegrammeni,
+Greek, Cyrillic), U+3041 … U+30FF (Hiragana, Katakana), the CJK unified ideographs U+4E00 … U+9FFF
+and the Hangul syllables U+AC00 … U+D7A3; the harness compares these windows exhaustively with
+`char::is_alphabetic`.  Code points outside the windows are taken as non-alphabetic (assumption
+of the model; `std`'s full table is not transcribed). -/
 def uniAlphaRanges : List (Nat × Nat) :=
-  [(0xAA, 0xAA), (0xB5, 0xB5), (0xBA, 0xBA), (0xC0, 0xD6), (0xD8, 0xF6), (0xF8, 0x2C1),
-   (0x370, 0x373), (0x376, 0x377), (0x37A, 0x37D), (0x37F, 0x37F), (0x386, 0x386),
-   (0x388, 0x38A), (0x38C, 0x38C), (0x38E, 0x3A1), (0x3A3, 0x3F5), (0x3F7, 0x481),
-   (0x48A, 0x52F), (0x3041, 0x3096), (0x30A1, 0x30FA), (0x4E00, 0x9FFF), (0xAC00, 0xD7A3)]
+  [(170, 170), (181, 181), (186, 186), (192, 214), (216, 246), (248, 705), (710, 721), (736, 740),
+   (748, 748), (750, 750), (837, 837), (867, 884), (886, 887), (890, 893), (895, 895), (902, 902),
+   (904, 906), (908, 908), (910, 929), (931, 1013), (1015, 1153), (1162, 1327),
+   (12353, 12438), (12445, 12447), (12449, 12538), (12540, 12543),
+   (19968, 40959), (44032, 55203)]
 
 def uniAlpha (n : Nat) : Bool := uniAlphaRanges.any fun r => r.1 ≤ n && n ≤ r.2
 
